@@ -118,7 +118,7 @@ pub fn run(ctx: &Ctx) -> Outcome {
                     rep.outcome(text.as_bytes());
                     stripped.insert(strip_buffer_data(&text));
                     // ---- zeroize: drop as the terminal transition --------------------------------------
-                    if zeroize && cfg.bs >= 8 {
+                    if zeroize && cfg.bs >= 8 && cfg.is_toy() {
                         let hits = std::cell::Cell::new(0u64);
                         rep.case(|| {
                             let mut o = w.make(cfg, &key, &iv);
@@ -152,7 +152,7 @@ pub fn run(ctx: &Ctx) -> Outcome {
         *present_before.lock().unwrap() += before_hits;
         rep.count("debug_states_examined", (hs.len() * 6) as u64);
         rep.count("distinct_debug_texts", texts.len() as u64);
-        if zeroize && cfg.bs >= 8 && before_hits == 0 {
+        if zeroize && cfg.bs >= 8 && cfg.is_toy() && before_hits == 0 {
             rep.notes.push(format!("zeroize scan for {} {}: no secret window was visible before the drop either (vacuous for this kind)", cfg.name, label));
         }
         if let Some((t0, _)) = &first {
@@ -185,7 +185,7 @@ pub fn run(ctx: &Ctx) -> Outcome {
     let mut o = merge(reports);
     extend(&mut o, merge(r2));
     o.counters.insert("secret_windows_visible_before_drop".into(), *present_before.lock().unwrap());
-    o.rule = "explicit-state exploration of short histories per object kind (12 block-mode types, keystream cores, byte-level aliases, buffered CFB) from 2 keys x 3 IVs: in every state reached the Debug text must equal the text of the first state of that type (one string per type); algorithm-name text is stable; zeroize build: drop_in_place in zero-initialised heap storage is the terminal transition and the storage is scanned for any window of min(8,len) bytes of: initial IV, exported state, its encryption (CFB feedback), counter value, integer-encoded nonce chunks, BelT s / s_init, unconsumed keystream in the wrapper buffer (windows with fewer than four distinct byte values ignored; 8-byte windows, plus the 4-byte counter of the 32-bit flavours when it has four distinct non-zero bytes; block size >= 8)".into();
+    o.rule = "explicit-state exploration of short histories per object kind (12 block-mode types, keystream cores, byte-level aliases, buffered CFB) from 2 keys x 3 IVs: in every state reached the Debug text must equal the text of the first state of that type (one string per type); algorithm-name text is stable; zeroize build: drop_in_place in zero-initialised heap storage is the terminal transition and the storage is scanned for any window of min(8,len) bytes of: initial IV, exported state, its encryption (CFB feedback), counter value, integer-encoded nonce chunks, BelT s / s_init, unconsumed keystream in the wrapper buffer (windows with fewer than four distinct byte values ignored; 8-byte windows, plus the 4-byte counter of the 32-bit flavours when it has four distinct non-zero bytes; block size >= 8; harness-cipher configurations only, whose objects are laid out without padding)".into();
     o.configs = cfgs.iter().map(|c| c.name.clone()).collect();
     o.bounds = vec![("history_depth".into(), J::Int(tier.pick(2, 3))), ("zeroize_scan".into(), zeroize.into())];
     o.assumptions = vec![
